@@ -120,6 +120,32 @@ func (g *staker) history(a common.Args, id int) {
 	for _, i := range g.r.Perm(len(e.provs))[:2+g.r.Intn(2)] {
 		focus = append(focus, e.provs[i])
 	}
+	// every fourth trace is a SELF-STAKING history: one or two providers whose own delegate wallet is the
+	// caller of half of the steps, so that the wallet holds a delegate pool of its own provider while service
+	// charge and pool rewards accrue, and locks / unlocks / collects in every order (the payout of such a
+	// caller is pool reward + service charge, two sources that the other histories rarely combine)
+	self := id%4 == 0
+	if self {
+		// the first provider has a fractional service charge (both sources get a share of every reward)
+		var frac []*prov
+		for _, p := range e.provs {
+			if p.Charge > 0 && p.Charge < 1 {
+				frac = append(frac, p)
+			}
+		}
+		focus = focus[:1+g.r.Intn(2)]
+		focus[0] = frac[g.r.Intn(len(frac))]
+		if len(focus) == 2 && focus[1] == focus[0] {
+			focus = focus[:1]
+		}
+		// the wallet (and sometimes a third party) stakes first, then the seeded history runs
+		for _, p := range focus {
+			g.txn("lock", p, p.Wallet, []uint64{cfgMinStake, 150, 500, 1000, 7777}[g.r.Intn(5)])
+			if g.r.Intn(2) == 0 {
+				g.txn("lock", p, g.callers()[g.r.Intn(4)], []uint64{cfgMinStake, 500, 7777}[g.r.Intn(3)])
+			}
+		}
+	}
 	for i := 0; i < a.Steps; i++ {
 		if g.r.Intn(10) == 0 {
 			w.EndBlock()
@@ -127,10 +153,14 @@ func (g *staker) history(a common.Args, id int) {
 		}
 		p := focus[g.r.Intn(len(focus))]
 		who := g.callers()[g.r.Intn(4)]
-		if g.r.Intn(6) == 0 {
+		if g.r.Intn(6) == 0 || (self && g.r.Intn(2) == 0) {
 			who = p.Wallet // the delegate wallet stakes / collects too (it also gets the service charge)
 		}
-		switch x := g.r.Intn(100); {
+		x := g.r.Intn(100)
+		if self && x < 38 && g.r.Intn(2) == 0 {
+			x = 72 + g.r.Intn(24) // fewer locks, more reward payments
+		}
+		switch {
 		case x < 38:
 			v := []uint64{0, 1, cfgMinStake - 1, cfgMinStake, cfgMinStake, 150, 500, 500, 1000, 7777, cfgMaxStake / 2, cfgMaxStake - 100, cfgMaxStake, cfgMaxStake + 1}[g.r.Intn(14)]
 			g.txn("lock", p, who, v)
@@ -235,6 +265,12 @@ func (g *staker) emit(op string, p *prov, who *world.Key, value uint64, class st
 	outcome := class
 	if op == "lock" || op == "unlock" {
 		outcome = fmt.Sprintf("%s/had=%v", class, had)
+	}
+	if who.ID == p.Wallet.ID && (op == "unlock" || op == "collect") && class == "ok" {
+		// which of the two sources of a delegate wallet's payout were non-empty
+		pr, _ := pairOf(pre.rew, key)
+		sv, _ := pairOf(pre.sp, p.Name)
+		outcome += fmt.Sprintf("/wallet/pool=%v/svc=%v", pr > 0, sv > 0)
 	}
 	_ = has
 	g.rc.Emit(m, op+"/"+p.Type.String()+"/"+outcome, class == "ok")
